@@ -14,6 +14,8 @@ world w of any mixed batch under either loop form equals the same world of the h
 situation bit for bit (qacc, qfrc_constraint, efc.force, efc.state, Ma, niter, overflow) - iterating on for other
 worlds is transparent; the homogeneous batch has identical worlds and equals the solo run (niter / bit exactly;
 floats bit for bit, reported separately as "batch size changes the result").
+Second family: opt.tolerance and stat.meaninertia batched per world with every combination of batch sizes {1,2,4} (nworld=4):
+world w stops exactly like world w of an unbatched Model holding its values (niter, bit and outputs bit for bit).
 """
 
 import itertools
